@@ -227,7 +227,7 @@ def run_shard(ctx):
     pool = Pool(U)
     from vlib.universe import warm_up
 
-    ctx.extra["first_use_order"] = warm_up(U, ctx.rng("warm-up"))[:6]
+    ctx.extra["first_use_order"] = warm_up(U, ctx.rng("warm-up"), ctx)[:6]
     keep = []  # strong refs to roots
 
     # ---- common pool: identical specs in every shard (cross-process join) ----
